@@ -80,7 +80,9 @@ HIST_RULE = ("random histories over a small universe built to collide: <=5 Clust
              "deliveries (stale caches, tombstones, resyncs), node / ClusterCIDR work items with write outcomes ok/fail/lost per attempt, mid-item "
              "cache refresh, foreign writers and finalizers, restarts with and without service ranges. A case = one history (about 50 events); "
              "non-trivial if it contains a node PATCH and a failed item or a node deletion; distinct by its event list. Violations are judged only "
-             "inside the property's envelope (DESIGN 3.5); counts of out-of-envelope histories are reported under outside_envelope")
+             "inside the property's envelope (DESIGN 3.5); counts of out-of-envelope histories are reported under outside_envelope. "
+             "Stream 'frag' (C01, C02, C04, C05, C06, C08): random histories inside the fragment the Lean history theorems quantify over (disjoint ClusterCIDR ranges, one start, "
+             "no label edits, no foreign pod CIDRs, node writes ok/fail only, delete notifications with the final state); there the judge runs with no envelope")
 
 # ---------------------------------------------------------------- property table
 
@@ -97,18 +99,18 @@ PROPS = {
     "C19": dict(mod="IpamVerif.Props.C19", engine="pool", streams=[("pool", "pool", proj_c19)], judge=("pool", {"C19"}),
                 rule="same histories as C14; the four series are read from the metric vectors after every call, the /metrics handler is "
                      "served once per run; a case = one pool history, non-trivial if >= 2 successful state-changing calls, distinct by operation list"),
-    "C01": dict(mod="IpamVerif.Props.C01", engine="hist", streams=[("hist", "hist", make_proj(["patches"], "full", api=True)), ("restart", "hist", make_proj(["patches"], "full", api=True))],
+    "C01": dict(mod="IpamVerif.Props.C01", engine="hist", streams=[("hist", "hist", make_proj(["patches"], "full", api=True)), ("restart", "hist", make_proj(["patches"], "full", api=True)), ("frag", "hist", make_proj(["res", "patches", "ccw"], "full", api=True))],
                 judge=("hist", {"C01"}), rule=HIST_RULE),
-    "C02": dict(mod="IpamVerif.Props.C02", engine="hist", streams=[("hist", "hist", make_proj(["patches"], "nocursor"))], judge=("hist", {"C02"}), rule=HIST_RULE),
+    "C02": dict(mod="IpamVerif.Props.C02", engine="hist", streams=[("hist", "hist", make_proj(["patches"], "nocursor")), ("frag", "hist", make_proj(["res", "patches", "ccw"], "full", api=True))], judge=("hist", {"C02"}), rule=HIST_RULE),
     "C03": dict(mod="IpamVerif.Props.C03", engine="hist", streams=[("restart", "hist", make_proj(["res", "patches", "ccw"], "full", api=True, view=True))],
                 judge=("hist", {"C03"}), rule=HIST_RULE + "; profile 'restart': a restart after every eighth event and, with probability 1/2, right after a lost (crash after the write) or failed (crash before the write) API write"),
-    "C04": dict(mod="IpamVerif.Props.C04", engine="hist", streams=[("hist", "hist", make_proj(["patches"], "nocursor", api=True))], judge=("hist", {"C04"}), rule=HIST_RULE),
-    "C05": dict(mod="IpamVerif.Props.C05", engine="hist", streams=[("hist", "hist", make_proj(["res", "patches", "events", "nq"], "full"))], judge=("hist", {"C05"}), rule=HIST_RULE),
-    "C06": dict(mod="IpamVerif.Props.C06", engine="hist", streams=[("hist", "hist", make_proj(["patches", "ccw"], "nocursor", api=True))], judge=("hist", {"C06"}), rule=HIST_RULE),
+    "C04": dict(mod="IpamVerif.Props.C04", engine="hist", streams=[("hist", "hist", make_proj(["patches"], "nocursor", api=True)), ("frag", "hist", make_proj(["res", "patches", "ccw"], "full", api=True))], judge=("hist", {"C04"}), rule=HIST_RULE),
+    "C05": dict(mod="IpamVerif.Props.C05", engine="hist", streams=[("hist", "hist", make_proj(["res", "patches", "events", "nq"], "full")), ("frag", "hist", make_proj(["res", "patches", "ccw"], "full", api=True))], judge=("hist", {"C05"}), rule=HIST_RULE),
+    "C06": dict(mod="IpamVerif.Props.C06", engine="hist", streams=[("hist", "hist", make_proj(["patches", "ccw"], "nocursor", api=True)), ("frag", "hist", make_proj(["res", "patches", "ccw"], "full", api=True))], judge=("hist", {"C06"}), rule=HIST_RULE),
     "C07": dict(mod="IpamVerif.Props.C07", engine="hist", streams=[("order", "hist", make_proj(["patches"], "full")), ("hist", "hist", make_proj(["patches"], "full"))], judge=("hist", {"C07"}),
                 rule=HIST_RULE + "; profile 'order': 3..5 ClusterCIDRs of one family whose selectors (0, 1 or 2 requirements, ties at every level) all select one label set, created in arbitrary order, "
                      "and a stream of nodes with that label set served until the higher-priority ClusterCIDRs are exhausted"),
-    "C08": dict(mod="IpamVerif.Props.C08", engine="hist", streams=[("hist", "hist", make_proj(["patches", "ccw", "events"], "nocursor", view=True))], judge=("hist", {"C08"}), rule=HIST_RULE),
+    "C08": dict(mod="IpamVerif.Props.C08", engine="hist", streams=[("hist", "hist", make_proj(["patches", "ccw", "events"], "nocursor", view=True)), ("frag", "hist", make_proj(["res", "patches", "ccw"], "full", api=True))], judge=("hist", {"C08"}), rule=HIST_RULE),
     "C09": dict(mod="IpamVerif.Props.C09", engine="hist", streams=[("svc", "hist", make_proj(["patches"], "full"))], judge=("hist", {"C09"}),
                 rule=HIST_RULE + "; profile 'svc': every first start and one restart in six is given a primary and/or secondary service range (inside, equal to, containing, smaller than a block, other family)"),
     "C10": dict(mod="IpamVerif.Props.C10", engine="hist", streams=[("hist", "hist", make_proj(["res", "ccw", "cq"], "nocursor", api=True)), ("restart", "hist", make_proj(["res", "ccw", "cq"], "nocursor", api=True))],
@@ -414,7 +416,8 @@ def correspond(res, spec):
             if os.path.exists(jc):
                 allv, allo = pickle.load(open(jc, "rb"))
             else:
-                allv, allo = judge_hist.judge(ops, impl, judge_hist.ALL)
+                # inside the fragment of the Lean history theorems nothing is excused: no envelope
+                allv, allo = judge_hist.judge(ops, impl, judge_hist.ALL, ignore_envelope=(stream == "frag"))
                 try:
                     pickle.dump((allv, allo), open(jc, "wb"))
                 except OSError:
